@@ -5,8 +5,8 @@
 //! also gives read(write(v)) == v for every v in the image of the reader; and
 //! (b) value -> write -> read == value where the value type can be built directly.
 //!
-//! @funcs WriteBuffer::{write_bytes, write_zeros, placeholder, reserve, write_placeholder, write_placeholder_dep}, WriteSlice::write_bytes, HeadTable::{read,write}, HheaTable::{read,write}, MaxpTable::{read,write}, NameTable::{read,write}, NameRecord, LangTagRecord, CvtTable::{read_dep,write}, IndexToLocFormat, TableRecord, LongHorMetric, cff::Operand::write, cff::Op::read (hook H2), cff::serialise_offset_array (hook H5), cff::offset_size, loca::owned::LocaTable::write_dep, LocaTable::read_dep
-//! @out CFF/CFF2 whole-font round trips, DICTs, INDEX writer, FDSelect, charsets (parser control flow branches on symbolic bytes into Vec arms: out of reach), glyf simple-glyph reader (2 points: out of memory at 12 GB), name tables with more than 2 records, HmtxTable::write (3 glyphs: CBMC out of memory at the 10 GB cap - ReadArrayCow<LongHorMetric> iteration into a growing Vec; its reader is covered in C01/C11)
+//! @funcs WriteBuffer::{write_bytes, write_zeros, placeholder, reserve, write_placeholder, write_placeholder_dep}, WriteSlice::write_bytes, HeadTable::{read,write}, HheaTable::{read,write}, MaxpTable::{read,write}, NameTable::{read,write}, NameRecord, LangTagRecord, CvtTable::{read_dep,write}, IndexToLocFormat, TableRecord, LongHorMetric, cff::Operand::write, cff::Op::read (hook H2), cff::serialise_offset_array (hook H5), cff::offset_size, loca::owned::LocaTable::write_dep, LocaTable::read_dep, post::Header::{read,write}
+//! @out OS/2 (78-byte table: CBMC out of memory at 16 GB - 35 small writes into a growing Vec), owned cmap subtable write -> read (out of memory at 10 GB), CFF/CFF2 whole-font round trips, DICTs, INDEX writer, FDSelect, charsets (parser control flow branches on symbolic bytes into Vec arms: out of reach), glyf simple-glyph reader (2 points: out of memory at 12 GB), name tables with more than 2 records, HmtxTable::write (3 glyphs: CBMC out of memory at the 10 GB cap - ReadArrayCow<LongHorMetric> iteration into a growing Vec; its reader is covered in C01/C11)
 
 use crate::util::*;
 use allsorts::binary::read::{ReadScope, ReadUnchecked};
@@ -358,4 +358,19 @@ fn c15_cff_index_offset_array() {
             kani::cover!(true, "offset beyond 32 bits refused");
         }
     }
+}
+
+/// post header: byte-exact.
+// @bound all 32-byte post headers
+#[kani::proof]
+#[kani::unwind(34)]
+fn c15_post_header_roundtrip() {
+    use allsorts::post::Header;
+    let buf: [u8; 32] = kani::any();
+    let h = ReadScope::new(&buf).read::<Header>().unwrap();
+    let mut out = WriteBuffer::new();
+    Header::write(&mut out, &h).unwrap();
+    assert!(same(out.bytes(), &buf));
+    kani::cover!(true, "written");
+    std::mem::forget(out);
 }
